@@ -236,25 +236,28 @@ def o_body(body, env, out, budget):
         if t == "D":
             out.append((s[1], v_inspect(o_eval(s[2], env))))
         elif t == "A":
-            env[-1][s[1]] = o_eval(s[2], env)
+            val = o_eval(s[2], env)
+            for fr in reversed(env):      # the innermost scope that declares the variable
+                if s[1] in fr:
+                    fr[s[1]] = val
+                    break
+            else:
+                env[-1][s[1]] = val
         elif t == "I":
             o_body(s[2] if truthy(o_eval(s[1], env)) else s[3], env, out, budget)
         elif t == "E":
             names = s[1]
-            saved = {n: env[-1].get(n) for n in names}
             for it in items(o_eval(s[2], env)):
+                fr = {}
                 if len(names) == 1:
-                    env[-1][names[0]] = it
+                    fr[names[0]] = it
                 else:
                     parts = items(it)
                     for i, n in enumerate(names):
-                        env[-1][n] = parts[i] if i < len(parts) else ("n",)
+                        fr[n] = parts[i] if i < len(parts) else ("n",)
+                env.append(fr)            # the loop variables are local to each round
                 o_body(s[3], env, out, budget)
-            for n, old in saved.items():
-                if old is None:
-                    env[-1].pop(n, None)
-                else:
-                    env[-1][n] = old
+                env.pop()
         elif t == "F":
             for val in o_range(o_eval(s[2], env), o_eval(s[3], env), s[4]):
                 env.append({s[1]: val})
@@ -343,7 +346,7 @@ class G:
         rng = self.rng
         if self.scope and rng.random() < 0.85:
             x, kind = rng.choice(self.scope)
-            if kind in ("num", "big") and rng.random() < 0.3:
+            if kind in ("num", "big", "acc") and rng.random() < 0.3:
                 return ("P", ("V", x), rng.randint(-3, 3))
             return ("V", x)
         return ("L", g_scalar(rng))
@@ -351,7 +354,7 @@ class G:
     def cond(self):
         rng = self.rng
         k = rng.random()
-        nums = [v for v in self.scope if v[1] in ("num", "big")]
+        nums = [v for v in self.scope if v[1] in ("num", "big", "acc")]
         if nums and k < 0.4:
             return ("T", ("V", rng.choice(nums)[0]), rng.randint(-4, 5))
         if self.scope and k < 0.6:
@@ -374,6 +377,11 @@ class G:
     def stmt(self, depth):
         rng = self.rng
         k = rng.random()
+        accs = [v for v in self.scope if v[1] == "acc"]
+        if accs and rng.random() < 0.15:
+            # assignment to a variable declared in an enclosing scope (accumulator): updates it there
+            x = rng.choice(accs)[0]
+            return [("A", x, ("P", ("V", x), rng.randint(-3, 3)))]
         if depth <= 0 or k < 0.3:
             return [("D", self.prop(), self.read_expr())]
         if k < 0.5:
@@ -495,6 +503,10 @@ def gen_program(rng, kind):
         v = g_scalar(rng)
         prog.append(("A", x, ("L", v)))
         g.scope.append((x, "num" if v[0] == "i" else "any"))
+    if rng.random() < 0.6:
+        x = g.var()
+        prog.append(("A", x, ("L", ("i", rng.randint(-3, 3), rng.choice(["-", "-", "px"])))))
+        g.scope.append((x, "acc"))
     if kind == "if":
         prog.append(g.if_chain(2))
         prog.append(g.if_chain(1, 4))
@@ -506,6 +518,9 @@ def gen_program(rng, kind):
         prog += g.while_loop(2)
     else:
         prog += g.body(3, rng.randint(1, 3))
+    for x, kind in g.scope:
+        if kind == "acc":
+            prog.append(("D", g.prop(), ("V", x)))   # the accumulator read after all loops
     return prog
 
 
@@ -606,8 +621,8 @@ TRUSTED = ["harness op c17.prog (extracts the `p<k>: value;` lines of the compil
            "meta.inspect text of lists/maps as modelled in Flow/Display.lean (validated text-exactly by the run)"]
 ASSUMPTIONS = ["values are integers with units, identifiers, booleans, null, lists and maps; number arithmetic beyond `$v + k`, "
                "`$v < k` and `==` on scalars is C11/C12's subject",
-               "assignments never target a variable of an outer scope from inside @for/@while except the loop's own counter "
-               "(finding C16's subject); a variable first defined inside a block is not read after it"]
+               "all generated code lies inside one style rule (the special assignment rule for global variables, C16's subject, "
+               "does not arise); a variable first defined inside an @if block is not read after it"]
 LEVEL_TEXT = ("Proof (Lean 4) over an abstract machine (`Flow.exec`) mirroring handle_item's IfStatement/Each/For/While, ValueRange, "
               "SrcRange::evaluate, iter_items and define_multi: first-truthy branch of an if chain, the exact list of integers of "
               "ascending/descending through/to ranges, the unit of the loop variable, destructuring with null for missing positions "
